@@ -9,7 +9,8 @@ CONSTANTS
   SettleRuns = 4
   EnvAllowed = {"hubvanish", "hubcompact"}
   Chunks = 3
-  PutAllowed = {"dropBefore", "dropAfter", "short", "shortDrop", "corrupt", "backpressure", "idxfail"}
+  PutAllowed = {"dropBefore", "dropAfter", "short", "shortDrop", "corrupt", "backpressure", "idxfail", "cancel", "cancelAfter"}
+  MaxRestart = 1
   MinRuns = 2
   Emit = TRUE
 INVARIANTS EmitInv
